@@ -25,6 +25,22 @@ def make_project(files, name="proj", git=False):
     return root
 
 
+_PREIMPORTED = []
+
+
+def preimport():
+    """import in the parent what every `cond` invocation imports lazily (fabric/paramiko via
+    conductor.envs.manager_impl: ~0.25 s per forked child otherwise)"""
+    if _PREIMPORTED:
+        return
+    _PREIMPORTED.append(True)
+    try:
+        import conductor.__main__  # noqa: F401  pylint: disable=unused-import,import-outside-toplevel
+        import conductor.envs.manager_impl  # noqa: F401  pylint: disable=unused-import,import-outside-toplevel
+    except ImportError:
+        pass
+
+
 class Result:
     def __init__(self, code, out, err, signaled=None):
         self.code = code
@@ -41,7 +57,8 @@ def run_cond(argv, cwd, env=None, stdin_data=None, pre=None, timeout=120):
     pre: optional callable run in the child before main() (monkey-patching, tracing).
     Returns Result(exit code, stdout text, stderr text)."""
     setup_impl_path()
-    d = tempfile.mkdtemp(prefix="run-", dir=os.path.dirname(os.path.dirname(cwd)) if cwd.startswith("/dev/shm") else None)
+    preimport()
+    d = new_dir("run")  # capture files live in scratch, never inside the project under test
     outp, errp = os.path.join(d, "out"), os.path.join(d, "err")
     sys.stdout.flush()
     sys.stderr.flush()
